@@ -4,13 +4,17 @@
 package blockchain
 
 // The store is content-addressed: every entry of blocks is keyed by the hash the block carries.
-//@ pred binv(c *Blockchain) = forall h hotstuff.Hash :: has(c.blocks, h) ==> c.blocks[h] != nil && c.blocks[h].hash == h
+//@ pred binv(c *Blockchain) = forall h hotstuff.Hash :: {c.blocks[h]} has(c.blocks, h) ==> c.blocks[h] != nil && c.blocks[h].hash == h
 
 //@ pred bmaps(c *Blockchain) = c.blocks != nil && c.blockAtHeight != nil && c.pendingFetch != nil && (forall h hotstuff.Hash :: has(c.pendingFetch, h) ==> c.pendingFetch[h] != nil)
+
+// The height index names non-nil blocks at their own view.
+//@ pred hinv(c *Blockchain) = forall v hotstuff.View :: {has(c.blockAtHeight, v)} has(c.blockAtHeight, v) ==> c.blockAtHeight[v] != nil && c.blockAtHeight[v].view == v
 
 //@ func (*Blockchain).Store property C13
 //@   requires block != nil && binv(chain) && bmaps(chain)
 //@   ensures [inv] binv(chain) && bmaps(chain)
+//@   ensures [height-index] old(hinv(chain)) ==> hinv(chain)
 //@   ensures [stored] has(chain.blocks, block.hash) && chain.blocks[block.hash] == (old(has(chain.blocks, block.hash)) ? old(chain.blocks[block.hash]) : block)
 //@   ensures [others] forall h hotstuff.Hash :: h != block.hash ==> has(chain.blocks, h) == old(has(chain.blocks, h)) && chain.blocks[h] == old(chain.blocks[h])
 //@   ensures [idempotent] old(has(chain.blocks, block.hash)) ==> (forall h hotstuff.Hash :: has(chain.blocks, h) == old(has(chain.blocks, h)) && chain.blocks[h] == old(chain.blocks[h])) && (forall v hotstuff.View :: has(chain.blockAtHeight, v) == old(has(chain.blockAtHeight, v)) && chain.blockAtHeight[v] == old(chain.blockAtHeight[v]))
@@ -25,6 +29,7 @@ package blockchain
 //@ func (*Blockchain).Get property C13
 //@   requires binv(chain) && bmaps(chain) && chain.sender != nil && chain.eventLoop != nil
 //@   ensures [inv] binv(chain) && bmaps(chain)
+//@   ensures [height-index] old(hinv(chain)) ==> hinv(chain)
 //@   ensures [content] ok ==> block != nil && block.hash == hash && has(chain.blocks, hash) && chain.blocks[hash] == block
 //@   ensures [miss] !ok ==> block == nil && !has(chain.blocks, hash)
 //@   ensures [oracle] ok == (old(has(chain.blocks, hash)) || core.avail(hash))
@@ -43,9 +48,13 @@ package blockchain
 
 // Assumptions of the property statement: views grow along parent links; a hash determines
 // the block's content (collision resistance of SHA-256, C12); fetched blocks carry their hash.
-//@ pred grows(c *Blockchain) = forall b *hotstuff.Block :: b != nil && getok(c, b.parent) ==> getblk(c, b.parent).view < b.view
-//@ pred hashdet() = forall b1 *hotstuff.Block, b2 *hotstuff.Block :: b1 != nil && b2 != nil && b1.hash == b2.hash ==> b1.view == b2.view && b1.parent == b2.parent
-//@ pred fetchwf() = forall h hotstuff.Hash :: core.avail(h) ==> core.fetched(h) != nil && core.fetched(h).hash == h
+//@ pred grows(c *Blockchain) = forall b *hotstuff.Block :: {c.blocks[b.parent]} {core.fetched(b.parent)} b != nil && getok(c, b.parent) ==> getblk(c, b.parent).view < b.view
+// (stated through functions of the hash, hview/hparent, instead of pairwise over two blocks: the
+// same assumption, with a trigger on one block at a time)
+//@ pure func hview(h hotstuff.Hash) hotstuff.View
+//@ pure func hparent(h hotstuff.Hash) hotstuff.Hash
+//@ pred hashdet() = forall b *hotstuff.Block :: {b.hash} b != nil ==> b.view == hview(b.hash) && b.parent == hparent(b.hash)
+//@ pred fetchwf() = forall h hotstuff.Hash :: {core.fetched(h)} core.avail(h) ==> core.fetched(h) != nil && core.fetched(h).hash == h
 
 // Ancestry only depends on what Get yields and on the blocks' own fields.
 //@ lemma anc_frame(c *Blockchain, b *hotstuff.Block, t *hotstuff.Block) property C13
@@ -78,7 +87,6 @@ package blockchain
 //@ pred storeskept() = (forall c *Blockchain :: old(binv(c)) ==> binv(c)) && (forall c *Blockchain :: old(bmaps(c)) ==> bmaps(c)) && (forall c *Blockchain, h hotstuff.Hash :: old(has(c.blocks, h)) ==> has(c.blocks, h) && c.blocks[h] == old(c.blocks[h]))
 
 // ---- pruning. The height index names non-nil blocks at their own view.
-//@ pred hinv(c *Blockchain) = forall v hotstuff.View :: {has(c.blockAtHeight, v)} has(c.blockAtHeight, v) ==> c.blockAtHeight[v] != nil && c.blockAtHeight[v].view == v
 
 // sanc: the block with hash h lies on b's parent chain inside the store (followed while views
 // decrease) or is b itself. sancp is the same, cut off at views at or below p.
